@@ -181,6 +181,24 @@ pub fn check_point(root: &Path, n: usize, h1: u64, h2: u64, rep: &mut Report) ->
     if in1 {
         rep.count("fresh_put_in_primary", 1);
     }
+    // the handle that wrote (its load estimates are no longer zero) still probes the primary first: the
+    // estimates only choose where NEW entries go
+    if in1 {
+        let (r, trace) = participant(|| fresh.get(key).map(|o| o.map(|mut f| read_all(&mut f))));
+        rep.transitions += trace.len() as u64;
+        let opens: Vec<String> = trace.iter().filter(|e| e.kind == Kind::Open).filter_map(|e| e.path.clone()).collect();
+        if opens.first() != Some(&want[0]) || !matches!(&r, Ok(Some(b)) if b == b"V") {
+            bad.push((
+                "probe-order-depends-on-history".into(),
+                format!("after a put through the same handle, its lookup probed {:?} (primary is {:?}) and returned {:?}", opens, want[0], r.map(|o| o.map(|b| String::from_utf8_lossy(&b).into_owned()))),
+            ));
+        }
+        let (r, trace) = participant(|| fresh.touch(key));
+        let opens: Vec<String> = trace.iter().filter(|e| e.kind == Kind::Open).filter_map(|e| e.path.clone()).collect();
+        if opens.first() != Some(&want[0]) || !matches!(r, Ok(true)) {
+            bad.push(("probe-order-depends-on-history".into(), format!("after a put through the same handle, its touch probed {:?} first", opens)));
+        }
+    }
     // a *different* fresh handle must find it
     let other = kismet_cache::sharded::Cache::new(root.to_path_buf(), n, 1000);
     let (r, _t) = participant(|| other.get(key).map(|o| o.map(|mut f| read_all(&mut f))));
